@@ -27,15 +27,20 @@ def inflight_cases(rng):
     keyed = rng.random() < 0.3
 
     def f(x):
-        return x * 10
-    src = {f'k{j}': j for j in range(n)} if keyed else list(range(n))
+        return ('f', x)
+    # examples are arbitrary values: None and the other falsy ones are examples like any other (not end markers)
+    vals = list(range(n))
+    if rng.random() < 0.5:
+        for _ in range(rng.choice([1, 1, 2, 3])):
+            vals[rng.randrange(n)] = rng.choice([None, None, None, 0, '', (), False, [], {}])
+    src = {f'k{j}': v for j, v in enumerate(vals)} if keyed else list(vals)
     with warnings.catch_warnings():
         warnings.simplefilter('ignore')
         base = lazy_dataset.new(src)
         if reshuffle:
             base = base.shuffle(reshuffle=True, rng=np.random.RandomState(seed))
         ds = base.map(f).prefetch(w, b) if kind == 'prefetch' else base.map(f, num_workers=w, buffer_size=b)
-        want = sorted(x * 10 for x in range(n))
+        want = sorted((f(x) for x in vals), key=repr)
         k = rng.randrange(0, n)
         its = [iter(ds)]
         got = [[], []]
@@ -70,10 +75,10 @@ def inflight_cases(rng):
                     fails.append(('items_not_transparent', {'kind': nm, 'n': n, 'workers': w, 'buffer': b, 'delivered': gi, 'expected': want_items}))
                     break
         for i, g in enumerate(got):
-            ok = (sorted(g) == want) if reshuffle else (g == [x * 10 for x in range(n)])
+            ok = (sorted(g, key=repr) == want) if reshuffle else (g == [f(x) for x in vals])
             if not ok:
                 fails.append(('iteration_in_flight_not_transparent', {'kind': kind, 'n': n, 'workers': w, 'buffer': b, 'reshuffle': reshuffle, 'seed': seed,
-                                                                      'first_consumed_before_second_started': k, 'iteration': i, 'delivered': g,
+                                                                      'first_consumed_before_second_started': k, 'iteration': i, 'source': repr(vals), 'delivered': repr(g),
                                                                       'expected': 'each example exactly once' + ('' if reshuffle else ', in source order')}))
                 break
     return fails
